@@ -65,6 +65,7 @@ ASSUMPTIONS = [
 SCRATCH = "pv.props._c20_scratch"
 MISSING = ["<missing>"]
 FORMS = ("interp", "compiled", "dataclass")
+SITE_FORM = {"compiled": "generated", "dataclass": "generated"}
 
 
 class Reject(Exception):
@@ -856,7 +857,8 @@ def compare(form: str, defn: dict, inst: dict, exp: dict, obs: dict, case: dict)
     dflt = default_values(defn, mk_model)
 
     def fail(clause: str, what: str, msg: str) -> None:
-        site = what if what.startswith("default:") else f"{form}:{what}"
+        # the dataclass form is compiled by the same generator: one site for both (K0 covers what is its own)
+        site = what if what.startswith("default:") else f"{SITE_FORM.get(form, form)}:{what}"
         raise Violation(clause, site, f"{form} form of {describe(defn)}: {msg}", case)
 
     def first_diff_name(a: list, b: list) -> int:
@@ -915,29 +917,45 @@ def compare(form: str, defn: dict, inst: dict, exp: dict, obs: dict, case: dict)
             fail("K3", "offset", f"unpack_serializable of {im.hex()[:80]} ends at {o[1]}, image ends at {e[1]}")
 
 
+def _all_defns(defn: dict, acc: dict) -> dict:
+    acc[tuple(defn["names"])] = defn
+    for f in defn["fields"]:
+        if inner_of(f) is not None:
+            _all_defns(inner_of(f), acc)
+    return acc
+
+
 def deep_label(defn: dict, e: list, o: list) -> str:
     """
     Kind of the innermost field at which two canonical payload values differ (a wrong inner payload is the inner
-    definition's finding, not one of each enclosing level).
+    definition's finding, not one of each enclosing level, hooked or not).
     """
-    names = defn["names"]
-    for i, (x, y) in enumerate(zip(e[1], o[1])):
-        if x == y:
-            continue
-        field = field_of_name(defn, i)
-        ex, ob = x[1], y[1]
-        inner = inner_of(field)
-        if inner is not None and isinstance(ex, list) and isinstance(ob, list) and ex[:1] == ob[:1]:
-            if ex[0] == "P" and len(ex[1]) == len(ob[1]):
-                return deep_label(inner, ex, ob)
-            if ex[0] == "list" and len(ex[1]) == len(ob[1]):
-                for a, b in zip(ex[1], ob[1]):
-                    if a != b and isinstance(a, list) and isinstance(b, list) and a[:1] == b[:1] == ["P"] \
-                            and len(a[1]) == len(b[1]):
-                        return deep_label(inner, a, b)
-        fnames = [n for f, ns in fields_of(defn) if f is field for n in ns]
-        return label(defn, field, fnames, 1)
-    return "shape"
+    index = _all_defns(defn, {})
+
+    def walk(x: Any, y: Any) -> str | None:
+        if x == y or not (isinstance(x, list) and isinstance(y, list) and len(x) == 2 and len(y) == 2
+                          and x[0] == y[0] and isinstance(x[1], list) and isinstance(y[1], list)
+                          and len(x[1]) == len(y[1])):
+            return None
+        if x[0] == "P":
+            names = tuple(kv[0] for kv in x[1])
+            d = index.get(names)
+            if d is None or names != tuple(kv[0] for kv in y[1]):
+                return None
+            for i, (a, b) in enumerate(zip(x[1], y[1])):
+                if a[1] != b[1]:
+                    field = field_of_name(d, i)
+                    fnames = [n for f, ns in fields_of(d) if f is field for n in ns]
+                    return walk(a[1], b[1]) or label(d, field, fnames, 1)
+            return None
+        if x[0] in ("list", "tuple"):
+            for a, b in zip(x[1], y[1]):
+                r = walk(a, b)
+                if r is not None:
+                    return r
+        return None
+
+    return walk(e, o) or "shape"
 
 
 def describe(defn: dict) -> str:
@@ -1020,7 +1038,7 @@ def build_forms(defn: dict, kinds: tuple, case: dict) -> dict:
                         what = default_site(dflt[n])
                         msg_extra = f" (default of {n!r} is a {type_label(dflt[n])})"
                         break
-            site = what if what.startswith("default:") else f"{kind}:{what}"
+            site = what if what.startswith("default:") else f"{SITE_FORM.get(kind, kind)}:{what}"
             raise Violation("K1", site, f"{kind} form of {describe(defn)} cannot be created{msg_extra}: "
                                         f"{type(e).__name__}: {str(e)[:200]}", case) from e
         if kind == "dataclass":
